@@ -28,5 +28,7 @@ def check(run):
            expect_violation="NoSharing", workers=1)
     common.mc_structs(run, kinds=("identity",))
     run.gen("Gen_C08")
+    # serialisations kept by the caller while other values are serialised; caller's input buffers stay untouched (Read/Twins events)
+    common.gen_structs(run, fams1=("ident",), fams2=("serchain", "lease", "sig", "offsig"))
     run.replay_and_judge()
     return vlib.finish(run, "model_checking", RULE, ASSUME)
